@@ -300,6 +300,9 @@ class Model:
                     out.add(("Reconnect", t_ok, t_issue, now))
         elif st == "Reconnect":
             if kind == "recon_ok":
+                # a successful reconnect is not a successful read/write: under the reading "timeout since the
+                # last successful read/write" the old time stays; under "since entering Issue" it is irrelevant
+                out.add(("OK", t_ok, None, None))
                 out.add(("OK", now, None, None))
             elif kind in ("rw_ok", "rw_err"):
                 # hardware is not trusted while reconnecting; an I/O request is where an expired
@@ -314,6 +317,7 @@ class Model:
                     out.add(("Error", t_ok, t_issue, t_rec))
         elif st == "Error":
             if kind == "recon_ok":
+                out.add(("OK", t_ok, None, None))
                 out.add(("OK", now, None, None))
             else:
                 out.add(ms)
